@@ -141,7 +141,7 @@ theorem interp_good (reg : Registry) : ∀ f : Nat,
         simp only
         apply loopNode_good
         intro s'
-        apply rloopWith_goodL
+        apply rloopQB_goodL
         · intro s''; exact ihS _ _
         · intro re hre s''
           cases hp : (loopParts child).2 with
